@@ -472,7 +472,7 @@ fn run_file(opts: &Opts, w: &mut dyn Write) {
     let z = libc::rlimit { rlim_cur: 0, rlim_max: 0 };
     libc::setrlimit(libc::RLIMIT_CORE, &z);
   }
-  let deadline = opts.get_usize("deadline-ms", 4000) as u64;
+  let deadline = opts.get_usize("deadline-ms", 15000) as u64;
   let grace = opts.get_usize("grace-ms", 15) as u64;
   let pid = std::process::id();
 
